@@ -283,7 +283,7 @@ class LRI(dict):
 
     def copy(self):
         with self._lock:
-            ret = self.__class__(max_size=self.max_size)
+            ret = self.__class__(max_size=self.max_size, on_miss=self.on_miss)
             # re-insert oldest first, straight from the linked list: going
             # through self[key] would count hits on (and, for LRU, reorder)
             # the cache being copied
